@@ -54,6 +54,16 @@
 (*        matter for what the library does with the context errors after a     *)
 (*        stop: C04 demands the same termination for every combination)        *)
 (*                                                                            *)
+(*   ann  an operand (MergeIterators: operand ann) or the input iterator        *)
+(*        (ann = 1) is ANNOTATED: it delivers every item and finishes          *)
+(*        normally, but carries a recorded, non-fatal error, so its Close()    *)
+(*        is non-nil.  annk = "adderr": Iterator.AddError before use;          *)
+(*        annk = "mapcont": the operand is the output of an upstream Map in    *)
+(*        ContinueOnError mode one of whose (extra) items failed.  Nothing     *)
+(*        aborts such a run: C01 demands the same delivered multiset, so the   *)
+(*        reference semantics does not look at ann at all (what happens to     *)
+(*        the error itself is C03's business)                                  *)
+(*                                                                            *)
 (* Observations attached to a step (DESIGN.md 2.3a: always sets / bounds):      *)
 (*   may    items whose output may have been delivered so far (upper bound:    *)
 (*          for a transforming stage only items whose user function returned)  *)
@@ -99,6 +109,7 @@ CONSTANTS Constructs,   \* subset of the construct names below
           MaxBurst,     \* burst releases per behaviour (0 = none)
           BurstReps,    \* repetitions of a schedule that contains a burst
           Opts,         \* option strings explored with context-respecting user functions ({} = none)
+          Anns,         \* kinds of annotated operands / inputs explored ({} = none)
           Depth         \* maximal number of driver steps of a behaviour
 
 Stage   == {"map", "gen", "pbufg"}                \* user function + output iterator
@@ -120,13 +131,18 @@ Ks(c)   == IF c = "buffer" \/ c = "bufchan" THEN {1}
 Caps(c) == IF c = "buffer" \/ c = "bufchan" THEN 0..2 ELSE IF c = "pbufg" THEN 1..2 ELSE {0}
 Fns(c)  == {[opt |-> "", cb |-> "plain"]} \cup
            (IF c \in Stage \cup Group THEN {[opt |-> o, cb |-> "ctx"] : o \in Opts} ELSE {})
-Cfgs == UNION {{[c |-> c, n |-> n, k |-> k, cap |-> cap, opt |-> f.opt, cb |-> f.cb,
-          \* C01 demands input order for Buffer and for a single worker / source / output only
-          ord |-> (c = "buffer") \/ (c \in {"map", "gen", "pbuf", "pbufg", "merge", "split"} /\ k = 1),
-          fn  |-> c \in Stage \cup Group,
-          out |-> IF c \in Group THEN 0 ELSE IF c = "split" THEN k ELSE 1]
-         : n \in 0..MaxN, k \in 1..Max(3, MaxK), cap \in 0..2, f \in Fns(c)} : c \in Constructs}
-CfgOK(x) == x.k \in Ks(x.c) /\ x.cap \in Caps(x.c)
+\* constructs that take an input iterator (or operands) which can be annotated
+AnnInput == {"merge", "split", "buffer", "pbuf", "pbufg", "map", "pp", "pfe"}
+AnnMax(c, k) == IF c = "merge" THEN k ELSE IF c \in AnnInput THEN 1 ELSE 0
+\* the annotations explored for construct c of width k with n items: none, or operand / input a with kind x
+AnnsOf(c, k, n) == {[ann |-> 0, annk |-> ""]} \cup
+                   (IF n > 0 THEN {[ann |-> a, annk |-> x] : a \in 1..AnnMax(c, k), x \in Anns} ELSE {})
+MkCfg(c, n, k, cap, f, a) ==
+    [c |-> c, n |-> n, k |-> k, cap |-> cap, opt |-> f.opt, cb |-> f.cb, ann |-> a.ann, annk |-> a.annk,
+     \* C01 demands input order for Buffer and for a single worker / source / output only
+     ord |-> (c = "buffer") \/ (c \in {"map", "gen", "pbuf", "pbufg", "merge", "split"} /\ k = 1),
+     fn  |-> c \in Stage \cup Group,
+     out |-> IF c \in Group THEN 0 ELSE IF c = "split" THEN k ELSE 1]
 
 VARIABLES cfg,        \* the configuration of this behaviour
           started,    \* the first advance / Run happened: background work exists
@@ -156,7 +172,10 @@ OutOf(c)  == IF cfg.c = "split" THEN c ELSE 1
 PipeCap   == IF cfg.c = "gen" THEN 2 * cfg.k + 1 ELSE IF cfg.c = "pbufg" THEN cfg.cap ELSE 0
 CtxCb     == cfg.cb = "ctx"
 
-Init == /\ cfg \in {x \in Cfgs : CfgOK(x)}
+\* (nested quantifiers rather than one big set of records: TLC enumerates them without building the set)
+Init == /\ \E c \in Constructs, n \in 0..MaxN : \E k \in Ks(c), cap \in Caps(c), f \in Fns(c) :
+             \E a \in AnnsOf(c, k, n) : /\ (a.ann > 0 => f.cb = "plain")
+                                        /\ cfg = MkCfg(c, n, k, cap, f, a)
         /\ started = FALSE /\ first = 0 /\ nent = 0 /\ held = {} /\ rel = {} /\ avail = 0 /\ ngot = 0
         /\ pend = {} /\ ended = {} /\ closed = {} /\ cancelled = FALSE /\ ccan = {} /\ nb = 0
         /\ phase = "run" /\ steps = <<>>
@@ -347,7 +366,7 @@ FreeRun ==
 \* undisturbed runs with concurrent first advances, repeated on fresh instances (C01: every interleaving
 \* of the hand-off, including the lazy setup); the per-repetition bag equality is judged by the harness
 RaceStart ==
-    /\ RaceReps > 0 /\ phase = "run" /\ steps = <<>> /\ cfg.cb = "plain"
+    /\ RaceReps > 0 /\ phase = "run" /\ steps = <<>> /\ cfg.cb = "plain" /\ cfg.ann = 0
     /\ cfg.n = MaxN /\ \A k \in Ks(cfg.c) : k <= cfg.k
     /\ Complete
     /\ Rec("race-start", RaceReps)
@@ -359,7 +378,7 @@ RaceStart ==
 SharedBuffered == {"pbuf", "pbufg", "gen"}
 FillArg == IF cfg.c \in SharedBuffered THEN 10 * FillReps ELSE FillReps
 Race(mode) ==
-    /\ AllowStop /\ phase = "run" /\ steps = <<>> /\ cfg.cb = "plain"
+    /\ AllowStop /\ phase = "run" /\ steps = <<>> /\ cfg.cb = "plain" /\ cfg.ann = 0
     /\ (IF mode \in FillModes THEN FillReps ELSE RaceReps) > 0
     \* the races are repeated many times: one configuration per construct (the largest) suffices
     /\ cfg.n = MaxN /\ \A k \in Ks(cfg.c) : k <= cfg.k
